@@ -10,3 +10,10 @@ w = common.warm_cache("jit")
 print("jit cache warm-up: %.1fs" % w)
 sys.exit(0 if w >= 0 else 1)
 PY
+/venv/bin/python - <<'PY'
+from framework import common
+import sys
+w = common.warm_cache("bc", timeout=1500)
+print("bounds-check cache warm-up: %.1fs" % w)
+sys.exit(0 if w >= 0 else 1)
+PY
